@@ -211,8 +211,18 @@ _PROXY_AS = {
 }
 
 
+def _real_types(t):
+    if isinstance(t, tuple):
+        return tuple(_real_types(tt) for tt in t)
+    try:
+        return _STANDINS.get(t, t)
+    except TypeError:
+        return t
+
+
 def isinstance_shim(x, t):
     tx = type(x)
+    t = _real_types(t)
     if tx in _PROXY_AS:
         ts = t if isinstance(t, tuple) else (t,)
         flat = []
@@ -250,7 +260,11 @@ def type_shim(*a):
         if isinstance(x, SymStr) or isinstance(x, SymText):
             return str
         if isinstance(x, SymBytes):
-            return x.kind
+            return {builtins.bytes: BytesShim, builtins.bytearray: ByteArrayShim, builtins.memoryview: MemoryViewShim}[x.kind]
+        if builtins.type(x) is builtins.bytes:
+            return BytesShim
+        if builtins.type(x) is builtins.bytearray:
+            return ByteArrayShim
         if isinstance(x, SymInt):
             return builtins.int
         return builtins.type(x)
@@ -425,3 +439,212 @@ class _CodecsMeta(type):
 
 
 CodecsShim = _CodecsMeta("CodecsShim", (CodecsShim,), {})
+
+
+# ------------------------------------------------------------------ byte buffers: bytes(...) / bytearray(...) / memoryview(...)
+def _elems(src, enc_args=()):
+    """element list (ints / 8-bit terms) of anything the bytes / bytearray constructors accept"""
+    if isinstance(src, SymBytes):
+        return list(src.b)
+    if isinstance(src, ArrayShim):
+        return _elems(src.data)
+    if isinstance(src, (builtins.bytes, builtins.bytearray, builtins.memoryview)):
+        return list(builtins.bytes(src))
+    if isinstance(src, builtins.int):
+        return [0] * src
+    if isinstance(src, SymInt):
+        return [0] * src.__index__()
+    if isinstance(src, str):
+        return list(src.encode(*enc_args))
+    if isinstance(src, SymStr):
+        return _elems(src.encode(*enc_args))
+    return [core._norm_byte(v) if not isinstance(v, builtins.int) else _chk_byte(v) for v in src]
+
+
+def _chk_byte(v):
+    if not 0 <= v <= 255:
+        raise ValueError("byte must be in range(0, 256)")
+    return v
+
+
+def _ix(i):
+    if isinstance(i, slice):
+        return slice(*[x.__index__() if isinstance(x, SymInt) else x for x in (i.start, i.stop, i.step)])
+    return i.__index__() if isinstance(i, SymInt) else i
+
+
+class SymByteArray(SymBytes):
+    """what `bytearray(...)` creates inside repository modules: a mutable byte buffer whose elements may be symbolic (a C-level
+    bytearray cannot hold a proxy).  It is a SymBytes (kind bytearray), so everything that understands SymBytes understands it."""
+    __slots__ = ()
+
+    def __init__(self, src=b"", *a):
+        SymBytes.__init__(self, _elems(src, a), builtins.bytearray, True)
+
+    def __repr__(self):
+        return "<symbytearray len=%d>" % len(self.b)
+
+    def __getitem__(self, i):
+        if isinstance(i, slice):
+            return SymByteArray(self.b[_ix(i)])
+        return core.byte_to_symint(self.b[_ix(i)])
+
+    def __setitem__(self, i, v):
+        if isinstance(i, slice):
+            self.b[_ix(i)] = _elems(v)
+        else:
+            self.b[_ix(i)] = _elems([v])[0]
+
+    def __delitem__(self, i):
+        del self.b[_ix(i)]
+
+    def __iadd__(self, o):
+        self.b.extend(_elems(o))
+        return self
+
+    def __add__(self, o):
+        if isinstance(o, (builtins.bytes, builtins.bytearray, builtins.memoryview, SymBytes)):
+            return SymByteArray(self.b + _elems(o))
+        return NotImplemented
+
+    def __radd__(self, o):
+        if isinstance(o, (builtins.bytes, builtins.bytearray)):
+            return core.mk_bytes(list(o) + self.b, type(o), True)
+        return NotImplemented
+
+    def __mul__(self, k):
+        return SymByteArray(self.b * _ix(k))
+
+    def __imul__(self, k):
+        self.b[:] = self.b * _ix(k)
+        return self
+
+    def extend(self, o):
+        self.b.extend(_elems(o))
+
+    def append(self, v):
+        self.b.append(_elems([v])[0])
+
+    def insert(self, i, v):
+        self.b.insert(_ix(i), _elems([v])[0])
+
+    def pop(self, i=-1):
+        return core.byte_to_symint(self.b.pop(_ix(i)))
+
+    def clear(self):
+        del self.b[:]
+
+    def copy(self):
+        return SymByteArray(self.b)
+
+    def reverse(self):
+        self.b.reverse()
+
+
+class SymView(SymBytes):
+    """what `memoryview(x)` gives for a symbolic buffer: a read-only snapshot with the memoryview methods the library could use"""
+    __slots__ = ()
+
+    def __init__(self, src):
+        SymBytes.__init__(self, _elems(src), builtins.memoryview, True)
+
+    def __repr__(self):
+        return "<symview len=%d>" % len(self.b)
+
+    def __getitem__(self, i):
+        if isinstance(i, slice):
+            return SymView(self.b[_ix(i)])
+        return core.byte_to_symint(self.b[_ix(i)])
+
+    def __setitem__(self, i, v):
+        raise Unsupported("write through a memoryview of symbolic bytes")
+
+    def tobytes(self):
+        return core.mk_bytes(list(self.b), builtins.bytes, True)
+
+    def tolist(self):
+        return [core.byte_to_symint(x) for x in self.b]
+
+    def release(self):
+        pass
+
+    def toreadonly(self):
+        return self
+
+    def cast(self, fmt, *a):
+        if fmt not in ("B", "b", "c"):
+            raise Unsupported("memoryview.cast(%r)" % fmt)
+        return self
+
+    nbytes = property(lambda self: len(self.b))
+    itemsize = 1
+    readonly = True
+    format = "B"
+    ndim = 1
+
+    def __enter__(self):
+        return self
+
+    def __exit__(self, *a):
+        return False
+
+
+class _FwdMeta(type):
+    """a stand-in for a builtin type: isinstance / issubclass answer for the real type (and its proxies), unknown attributes
+    (bytes.fromhex, bytearray.maketrans ...) come from the real type"""
+
+    def __instancecheck__(cls, x):
+        return isinstance_shim(x, cls._real)
+
+    def __subclasscheck__(cls, c):
+        return c is cls or (isinstance(c, type) and issubclass(c, cls._real))
+
+    def __getattr__(cls, k):
+        return getattr(cls._real, k)
+
+    def __eq__(cls, o):
+        return o is cls or o is cls._real
+
+    def __hash__(cls):
+        return hash(cls._real)
+
+    def __repr__(cls):
+        return repr(cls._real)
+
+
+class BytesShim(metaclass=_FwdMeta):
+    _real = builtins.bytes
+
+    def __new__(cls, *a, **kw):
+        if a and isinstance(a[0], SymBytes):
+            return core.mk_bytes(list(a[0].b), builtins.bytes, True)
+        if a and isinstance(a[0], (SymStr, SymText)):
+            return a[0].encode(*a[1:], **kw)
+        if a and isinstance(a[0], SymInt):
+            return builtins.bytes(a[0].__index__())
+        if a and isinstance(a[0], (list, tuple)) and any(isinstance(v, SymInt) for v in a[0]):
+            return core.mk_bytes(_elems(a[0]), builtins.bytes, True)
+        return builtins.bytes(*a, **kw)
+
+
+class ByteArrayShim(metaclass=_FwdMeta):
+    _real = builtins.bytearray
+
+    def __new__(cls, *a, **kw):
+        if kw:
+            a = a + tuple(kw.values())
+        return SymByteArray(*a)
+
+
+class MemoryViewShim(metaclass=_FwdMeta):
+    _real = builtins.memoryview
+
+    def __new__(cls, obj):
+        if isinstance(obj, SymBytes):
+            return SymView(obj)
+        return builtins.memoryview(obj)
+
+
+_STANDINS = {IntShim: builtins.int, BytesShim: builtins.bytes, ByteArrayShim: builtins.bytearray, MemoryViewShim: builtins.memoryview}
+_PROXY_AS[SymByteArray] = (builtins.bytearray,)
+_PROXY_AS[SymView] = (builtins.memoryview,)
